@@ -203,6 +203,19 @@ func engineDirected() []namedScen {
 		}(),
 		Resumes: []gen.M{d.MsgResume(0, "rejected"), d.Dial(1, "answered")},
 	})
+	// dial waits that are skipped (nothing valid to dial) and lead straight to another wait, without an action in between
+	for _, ph := range []struct{ n, phone string }{{"blank", "@fields.nick"}, {"invalid", "bogus"}, {"error", "@(1/0)"}} {
+		ac := d.Cat("Any", "dv1any")
+		t := d.Manual("V", nil)
+		t["call"] = gen.M{"uuid": gen.NamedUUID("call"), "channel": gen.M{"uuid": gen.NamedUUID("chan:android"), "name": "Android"}, "urn": "tel:+12065551212"}
+		add("voice-dial-skipped-"+ph.n+"-then-wait", &gen.Scenario{
+			Assets: d.BaseAssets(d.Flow("V", "voice",
+				d.Node("dv1", nil, d.Switch("@(default(resume.dial.status, \"none\"))", []gen.M{ac}, ac, nil, gen.M{"type": "dial", "phone": ph.phone}, "Dial"), d.Exit("dv1any", "dv2")),
+				d.WaitNode("dv2", "dv3", sp("dv3")),
+				d.Node("dv3", []any{d.Action("dv3s", "say_msg", gen.M{"text": "bye"})}, nil, d.Exit("dv3x", "")))),
+			Trigger: t, Resumes: []gen.M{d.MsgResume(0, "hello"), d.MsgResume(1, "again")},
+		})
+	}
 	sort.SliceStable(out, func(i, j int) bool { return false })
 	return out
 }
